@@ -211,3 +211,24 @@ def write_target(n):
     if k == 'opcall' and n['op'] in ('++', '--') and n['args']:
         return n['args'][0], None, n['op']
     return None
+
+
+_NEG = {'==': '!=', '!=': '==', '<': '>=', '>=': '<', '>': '<=', '<=': '>'}
+
+
+def cmp_parts(e):
+    """(op, lhs, rhs) for a built-in or overloaded comparison, looking through `!` (C++20 rewrites
+    a != b on class types into !(a == b)); None otherwise."""
+    neg = False
+    while is_node(e) and e['k'] == 'un' and e['op'] == '!':
+        neg = not neg
+        e = e['e']
+    if not is_node(e):
+        return None
+    if e['k'] == 'bin' and e['op'] in _NEG:
+        op, l, r = e['op'], e['l'], e['r']
+    elif e['k'] == 'opcall' and e['op'] in _NEG and len(e['args']) == 2:
+        op, l, r = e['op'], e['args'][0], e['args'][1]
+    else:
+        return None
+    return (_NEG[op] if neg else op), l, r
